@@ -6,12 +6,16 @@ import (
 	"fmt"
 	"go/token"
 	"go/types"
+	"strings"
 )
 
 func ghostSortOf(gd GhostDecl) string {
 	switch gd.Sort {
-	case "slice":
+	case "slice", "[]byte", "[]string":
 		return SSlice
+	}
+	if strings.HasPrefix(gd.Sort, "*") {
+		return SInt
 	}
 	return sortOfDeclType(gd.Sort)
 }
@@ -25,13 +29,19 @@ func (fg *FnGen) bindGhosts(env *Env, st *State) {
 			var ty types.Type
 			if gd.Sort == "error" {
 				ty = types.Universe.Lookup("error").Type()
+			} else if strings.HasPrefix(gd.Sort, "*") || strings.HasPrefix(gd.Sort, "[]") {
+				if t, err := env.resolveType(&CE{Kind: "str", Str: gd.Sort}); err == nil {
+					ty = t
+				}
+			} else if gd.Sort == "string" {
+				ty = types.Typ[types.String]
 			}
 			env.vars[gd.Name] = CVal{T: fg.lookup(st, "ghost:"+gd.Name, ghostSortOf(gd)), Ty: ty}
 		}
 	}
 }
 
-func (fg *FnGen) monitorBefore(fr *Frame, d callDesc, args []*Term, st *State, reach *Term, pos token.Pos) {
+func (fg *FnGen) monitorBefore(fr *Frame, d callDesc, args []*Term, argTypes []types.Type, st *State, reach *Term, pos token.Pos) {
 	for _, m := range fg.monitors {
 		for _, r := range m.Rules {
 			if r.Kind != "before" {
@@ -39,7 +49,7 @@ func (fg *FnGen) monitorBefore(fr *Frame, d callDesc, args []*Term, st *State, r
 			}
 			hit := matchAny(r.Callees, d)
 			via := ""
-			if !hit && d.static != nil {
+			if !hit && d.static != nil && len(r.ArgBind) == 0 {
 				if w := fg.g.mayReach(d.static, r.Callees); w != "" {
 					hit, via = true, w
 				}
@@ -50,7 +60,11 @@ func (fg *FnGen) monitorBefore(fr *Frame, d callDesc, args []*Term, st *State, r
 			env := fg.baseEnv(fr, st)
 			for i, n := range r.ArgBind {
 				if i < len(args) && n != "_" {
-					env.vars[n] = CVal{T: args[i]}
+					var ty types.Type
+					if i < len(argTypes) {
+						ty = argTypes[i]
+					}
+					env.vars[n] = CVal{T: args[i], Ty: ty}
 				}
 			}
 			v, err := env.evalBool(r.Assert)
@@ -68,7 +82,7 @@ func (fg *FnGen) monitorBefore(fr *Frame, d callDesc, args []*Term, st *State, r
 	}
 }
 
-func (fg *FnGen) monitorAfter(fr *Frame, d callDesc, args, res []*Term, st *State, reach *Term) *State {
+func (fg *FnGen) monitorAfter(fr *Frame, d callDesc, args, res []*Term, argTypes []types.Type, st *State, reach *Term) *State {
 	for _, m := range fg.monitors {
 		for _, r := range m.Rules {
 			if r.Kind != "after" || !matchAny(r.Callees, d) {
@@ -86,7 +100,11 @@ func (fg *FnGen) monitorAfter(fr *Frame, d callDesc, args, res []*Term, st *Stat
 			}
 			for i, n := range r.ArgBind {
 				if i < len(args) && n != "_" {
-					env.vars[n] = CVal{T: args[i]}
+					var ty types.Type
+					if i < len(argTypes) {
+						ty = argTypes[i]
+					}
+					env.vars[n] = CVal{T: args[i], Ty: ty}
 				}
 			}
 			st = st.clone()
@@ -131,4 +149,16 @@ func (fg *FnGen) monitorAfter(fr *Frame, d callDesc, args, res []*Term, st *Stat
 		}
 	}
 	return st
+}
+
+// mentionsCalleeGhost: the evaluation error is an unknown name that is one of the callee's ghost variables.
+func mentionsCalleeGhost(ct *Contract, err error) bool {
+	for _, m := range ct.Monitors {
+		for _, gd := range m.Ghosts {
+			if strings.Contains(err.Error(), fmt.Sprintf("unknown name %q", gd.Name)) {
+				return true
+			}
+		}
+	}
+	return false
 }
